@@ -9,7 +9,7 @@
    the repair of F20).  PARTIAL: the clock itself is measured, not proved. *)
 From Coq Require Import Strings.String.
 From LV Require Import Base.Bytes Base.Str Base.Utf8 Base.Res Base.Base64
-  Model.Codec Model.Response Model.ServerInfo Model.Auth Model.Client Proofs.ClientProofs Proofs.TimeoutProofs.
+  Model.Codec Model.Response Model.ServerInfo Model.Auth Model.Client Model.Tls Proofs.ClientProofs Proofs.TimeoutProofs.
 
 (* no complete line buffered and the peer has not closed: the read ends at once, as a timeout *)
 Theorem C20_stall_is_a_timeout : forall s : cst,
@@ -52,7 +52,31 @@ Example C20_example :
   end.
 Proof. cbn. eexists; eexists. repeat split; reflexivity. Qed.
 
+(* the TLS handshake (after the repairs F43 / F44): a peer that says nothing during it never yields a session - for every
+   mode, configuration, credentials and script; under implicit TLS nothing at all is written and the error is the one
+   flagged as a timeout; after an accepted STARTTLS the error is flagged as a timeout and the session stays in clear
+   and unused *)
+Theorem C20_silent_handshake_wrapper : forall hello p c sc,
+  exists e t, connection TWrapper hello PSilent p c sc = (Err e, t) /\ etimeout e = true /\
+              clear_units t = [] /\ tls_units t = [].
+Proof. intros. eexists. eexists. cbn. repeat split; reflexivity. Qed.
+Theorem C20_silent_handshake_starttls : forall hello p (s s1 : cst) r,
+  f_starttls (info s) = true -> try_smtp (command STARTTLS_LINE s) = (Ok r, s1) -> inbuf s1 = [] ->
+  exists e, starttls hello PSilent p s = (Err e, mkT (ulog s1) s1 false) /\ etimeout e = true.
+Proof.
+  intros hello p s s1 r Hf Hc Hb. unfold starttls. rewrite Hf, Hc, Hb. cbn. eexists. split; reflexivity.
+Qed.
+Theorem C20_silent_handshake_never_succeeds : forall hello p s, fst (starttls hello PSilent p s) <> Ok tt.
+Proof.
+  intros hello p s. unfold starttls. destruct (f_starttls (info s)); [|cbn; discriminate].
+  destruct (try_smtp (command STARTTLS_LINE s)) as [[r|e|] s1]; cbn; try discriminate.
+  destruct (nonempty (inbuf s1)); cbn; discriminate.
+Qed.
+
 Print Assumptions C20_stall_is_a_timeout.
 Print Assumptions C20_timeout_only_when_blocked.
 Print Assumptions C20_failed_send_one_more_exchange.
 Print Assumptions C20_shut_connection_refuses.
+Print Assumptions C20_silent_handshake_wrapper.
+Print Assumptions C20_silent_handshake_starttls.
+Print Assumptions C20_silent_handshake_never_succeeds.
